@@ -208,7 +208,7 @@ Definition i_dump (a : iarr) : dump :=
   let els := match a with ID d => enum_from (da_values d) 0 | IS s => sa_items s end in
   D (i_len a) (i_lw a) (b_ext (i_base a)) (map enc_ent (absL els)) (map enc_ent (absL (b_ot (i_base a)))).
 Definition i_assign_len (a : iarr) (l : lenarg) : iarr * N :=
-  match l with LValid n => i_setlen a n | LInvalid => (a, 2) end.
+  match l with LValid n => i_setlen a n | LInvalid => if i_lw a then (a, 2) else (a, 1) end.
 Definition i_integ (m : option bool) (a : iarr) : iarr :=
   match m with None => i_prevent a | Some f => i_integrity f a end.
 Definition i_with_proto (a : iarr) (p : list (N * element)) : iarr :=
@@ -362,36 +362,10 @@ Definition kind_change (a : iarr) (o : top) : bool :=
 Definition values_longer (a : iarr) : bool :=
   match a with ID d => da_length d <? nlen (da_values d) | _ => false end.
 
-(* tags (each names one recorded finding, see known/C07.json):
-   1 = stale valueProperty fields after a configurable data<->accessor conversion (N1-N3);
-   (2 and 4 were F1 and F4, repaired in /repo by 7dd46dd+8a03683 and a4a2aa5)
-   3 = the fast-path guard holds although the array has holes: objCount drifted by truncation/pop (N5);
-   6 = N6: a non-configurable element at/above the new length while propValueCount <= 0;
-   7 = N7: invalid length assigned to a non-writable length (RangeError instead of TypeError);
-   8 = N10: a failed fast-path splice left len(values) > length;
-   9 = N11: splice fast path on a non-extensible array *)
-Definition tags (a : iarr) (o : top) : list N :=
-  (if dirty a then [1] else []) ++
-  (if holey_guard a then [3] else []) ++
-  (match shrink_target a o with
-   | Some n =>
-       (if (i_pvc a <=? 0)%Z && existsb (fun p => (n <=? fst p) && negb (iv_conf (snd p))) (idx_items a) then [6] else [])
-   | None => []
-   end) ++
-  (if i_lw a then [] else
-   match o with
-   | OSetLen _ false _ => [7]
-   | OSetLen _ true n => if 4294967295 <? n then [7] else []
-   | OPush vs => if 4294967295 <? i_len a + nlen vs then [7] else []
-   | OUnshift vs => if 4294967295 <? i_len a + nlen vs then [7] else []
-   | _ => []
-   end) ++
-  (match o, a with
-   | OSplice _ _ _, ID d => if d_guard d && negb (b_ext (da_base d)) then [9] else []
-   | _, _ => []
-   end) ++
-  (if values_longer a then [8] else
-   match o with OSplice _ _ _ => if negb (i_lw a) then [8] else [] | _ => [] end).
+(* tags name the region of a recorded OPEN finding of the faithful model I in which a divergence from S is
+   expected.  Every finding of C07 has been repaired in /repo (see known/C07.json "fixed"): there is no such
+   region any more, every divergence from S is a violation. *)
+Definition tags (a : iarr) (o : top) : list N := [].
 
 Definition tags_at (c : tcase) (ops : list top) (n : N) : list N :=
   let '(ia, o) := istate_at (initI (c_init c)) ops (N.to_nat n) in
